@@ -60,6 +60,66 @@ CHECKS = {
              "catch_unwind.",
         note=TLC_BASE + "; name validity follows the code's reading (colon runs of length exactly 2)",
         design="7/C13"),
+    "C05": dict(
+        category="model_checking",
+        technique="TLA+ spec (Rolling.tla) model-checked by TLC; every complete behaviour of the history-carrying "
+                  "instances replayed on the real RollingFileAppender with directory comparison after every operation",
+        text="Rolling.tla is a step machine of append (get_writer, pre-trigger, roller steps, reopen, write+flush, "
+             "post-trigger, ack) over a directory with restarts, faults, obstacles and crashes. TLC checks "
+             "GapFreeSuffix (oldest-to-newest reading is a suffix of the written stream), NotLessThanIdeal (nothing is "
+             "discarded before the retention window demands it, against an atomic fault-free shadow) and "
+             "WindowFaultFree. All behaviours of the bounded instances (size / on-start-up / scripted pre / scripted "
+             "post triggers, window / delete / count-0 rollers, both modes, restarts) are replayed on the real "
+             "appender in three materialisations (small records, records straddling the 1 KiB buffer with a two-chunk "
+             "encoder, gzip archives); after every operation each file is parsed back into record ids and compared.",
+        note=TLC_BASE + "; sizes in abstract units (10 / 16 / 400 bytes when replayed); compress step atomic; single appender thread in the replay",
+        design="7/C05"),
+    "C06": dict(
+        category="model_checking",
+        technique="TLA+ spec (Rolling.tla, size trigger) model-checked by TLC; behaviours replayed with a wrapping "
+                  "Policy that compares len_estimate() with the on-disk size at every consultation",
+        text="LenExact (writer.len equals the active file's size at every trigger consultation) and SizeBound are TLC "
+             "invariants of Rolling.tla; the replay covers limits 0..3, record sizes 1..3, pre-existing contents "
+             "absent / empty / 1..3 units, both modes and restarts; the real CompoundPolicy is wrapped so that "
+             "LogFile::len_estimate() is compared with fs::metadata(path).len() at every process() call, and the "
+             "directory after each append shows whether the roll happened exactly when the size exceeded the limit.",
+        note=TLC_BASE + "; sizes in abstract units (10 / 16 / 400 bytes when replayed); compress step atomic; single appender thread in the replay",
+        design="7/C06"),
+    "C07": dict(
+        category="model_checking",
+        technique="TLA+ spec (FixedWindow.tla) model-checked by TLC from arbitrary initial directories; every "
+                  "behaviour replayed through Roll::roll with five pattern templates and recursive snapshots",
+        text="FixedWindow.tla models rotate() as descending shifts plus the final move over a directory whose initial "
+             "state is any subset of the indices base-1..base+count; TLC checks WindowLaw, ActiveGone, "
+             "OutsideUntouched, RemoveOnly, NoDup for count+2 rolls. Each behaviour is replayed on FixedWindowRoller / "
+             "DeleteRoller with the index in the file name, in a directory component, repeated, behind $ENV{..} and "
+             "with a .gz pattern; the whole tree (incl. bystander files) is compared after every roll.",
+        note=TLC_BASE + "; (base, count) in {(0,2),(1,3),(3,1),(0,0)} + delete roller (quick), 4 more (thorough); "
+             "5 content representatives",
+        design="7/C07"),
+    "C08": dict(
+        category="fault_enumeration",
+        technique="TLA+ spec (Rolling.tla with StepFails / Obstruct / Crash actions) model-checked by TLC; every "
+                  "faulted behaviour replayed with fault hooks, real obstacles and crash images",
+        text="Every step of every rotation (each shift index, the final move) is a fault point, a crash point and an "
+             "obstacle position in Rolling.tla; TLC checks GapFreeSuffix, NotLessThanIdeal (= retained data is a "
+             "superset of what the fault-free shadow retains), Recovers and LenExact over all such behaviours and "
+             "their continuations in both modes with size / pre / post triggers. Each behaviour is replayed: faults "
+             "through the guarded fault_point hook, obstacles as real non-empty directories, crashes as directory "
+             "copies taken inside the hook callback with a new appender built over the copy; results (Ok/Err, never "
+             "panic) and the parsed directory are compared after every operation.",
+        note=TLC_BASE + "; sizes in abstract units (10 / 16 / 400 bytes when replayed); compress step atomic; single appender thread in the replay"[:-1] + "; death inside gzip output / cross-mount copy fallback / fsync-level durability out of scope"',
+        design="7/C08"),
+    "C17": dict(
+        category="model_checking",
+        technique="TLA+ spec (Rolling.tla, on-start-up trigger) model-checked by TLC; behaviours replayed on the real "
+                  "OnStartUpTrigger with directory comparison after every append",
+        text="AtMostOneRoll per lifetime plus the directory laws of Rolling.tla are checked by TLC for min_size 0..2, "
+             "pre-existing sizes absent/0..3, both modes and up to 2 restarts; each behaviour is replayed on the real "
+             "trigger + appender: whether the first record (and only it) rotates, that the pre-existing content "
+             "becomes the newest archive and the first record starts a fresh file are read off the parsed directory.",
+        note=TLC_BASE + "; sizes in abstract units (10 / 16 / 400 bytes when replayed); compress step atomic; single appender thread in the replay"[:-1] + "; simultaneous first appends are serialised by the appender mutex (threaded scenario: see DESIGN)"',
+        design="7/C17"),
 }
 
 NOT_YET = "check not built yet in this round (planned, see DESIGN.md section 7)"
